@@ -148,9 +148,13 @@ class ThreadCtx:
         self.extra = {}
 
     def alloc(self, kind):
-        k = self.counters.get(kind, 0)
-        self.counters[kind] = k + 1
-        return f'{self.name}.{kind}{k}'
+        # a scenario may open a name space (`ctx.extra['ns']`, e.g. one per start/stop cycle) so that the objects of a
+        # phase get the same names whatever was allocated before it on this path
+        ns = self.extra.get('ns')
+        key = kind if ns is None else f'{ns}.{kind}'
+        k = self.counters.get(key, 0)
+        self.counters[key] = k + 1
+        return f'{self.name}.{key}{k}'
 
 
 class OpRec:
@@ -501,7 +505,7 @@ def fingerprint(ctx, skip=2):
             parts.append(_uniq('frame'))
         f = f.f_back
     parts.append(tuple(sorted(ctx.counters.items())))
-    parts.append(ctx.extra.get('ending'))
+    parts.append((ctx.extra.get('ending'), ctx.extra.get('ns')))
     parts.append(tuple(sorted((k, v) for k, v in ctx.extra.get('held', {}).items() if v)))
     try:
         return hash(tuple(parts)), tuple(parts)
